@@ -220,7 +220,8 @@ def gen_params(seed, shard, i):
             "xc": X_CLASSES[int(rng.integers(0, len(X_CLASSES)))],
             "sc": str(rng.choice(["diag", "rot"])),
             "kappa": float(10 ** rng.choice([0, 1, 2, 3, 4, 6, 8])),
-            "sigma": float(rng.choice([0.1, 1.0, 2.0, 30.0])),
+            # incl. SI-radiance-like units: a correlated covariance whose entries are all <= 1e-8
+            "sigma": float(rng.choice([0.1, 1.0, 2.0, 30.0, 1e-5, 3e-6, 1e-3])),
             "spread": float(rng.choice([0.5, 3.0, 30.0])),
             "offset": float(rng.choice([0.0, 250.0])),
             "s": int(rng.integers(0, 2 ** 31))}
@@ -665,10 +666,15 @@ def run_db(rec, g, only=None):
                 continue
             # the original order sees every x2_max; permutations the unrestricted mode plus one
             x2s = X2S if p < 0 else [-1.0, X2S[1 + (j + p) % 5]]
+            if p < 0:
+                # call history on one object: the same observation under every x2_max in a seeded
+                # order, then the unrestricted and the most restrictive mode once more
+                order = np.random.default_rng(g["s"] + 7 * j).permutation(len(X2S))
+                x2s = [X2S[k] for k in order] + [-1.0, 0.0]
             for x2 in x2s:
-                if only is not None and only["x2"] != x2 and not (
+                if only is not None and p >= 0 and only["x2"] != x2 and not (
                         only["method"] == "order" and x2 == -1.0):
-                    continue
+                    continue  # (for p < 0 a replay re-runs the whole x2_max history of that observation)
                 sig = sig0 + [OBS_CLASSES[j], x2]
                 case = {"g": g, "perm": p, "obs": j, "x2": x2, "method": "predict"}
                 meth = None if only is None else only["method"]
